@@ -44,6 +44,10 @@ type MCMap struct {
 	UseCMap    string
 	Blocks     []MBlock
 	NoBegin    bool // fault: begincmap missing
+	// ResKey, if set, is the key used with defineresource (otherwise CMapName)
+	ResKey string
+	// OmitName leaves out the /CMapName entry (ResKey must be set)
+	OmitName bool
 }
 
 var blockKinds = []string{"codespacerange", "cidchar", "cidrange", "bfchar", "bfrange", "notdefchar", "notdefrange"}
@@ -248,7 +252,9 @@ func (m *MCMap) RenderBody(rng *rand.Rand) string {
 	}
 	fmt.Fprintf(&sb, "/CIDSystemInfo 3 dict dup begin%s/Registry %s def%s/Ordering %s def%s/Supplement %d def end def\n",
 		sep(), psString([]byte(m.Registry)), sep(), psString([]byte(m.Ordering)), sep(), m.Supplement)
-	fmt.Fprintf(&sb, "/CMapName /%s def%s", m.Name, sep())
+	if !m.OmitName {
+		fmt.Fprintf(&sb, "/CMapName /%s def%s", m.Name, sep())
+	}
 	fmt.Fprintf(&sb, "/CMapType %d def\n", m.CMapType)
 	if m.HasWMode {
 		fmt.Fprintf(&sb, "/WMode %d def\n", m.WMode)
@@ -273,7 +279,11 @@ func (m *MCMap) RenderBody(rng *rand.Rand) string {
 		fmt.Fprintf(&sb, "end%s\n", b.Kind)
 	}
 	sb.WriteString("endcmap\n")
-	sb.WriteString("CMapName currentdict /CMap defineresource pop\nend\n")
+	if m.ResKey != "" {
+		fmt.Fprintf(&sb, "/%s currentdict /CMap defineresource pop\nend\n", m.ResKey)
+	} else {
+		sb.WriteString("CMapName currentdict /CMap defineresource pop\nend\n")
+	}
 	return sb.String()
 }
 
